@@ -32,6 +32,8 @@ pub(crate) fn parse_uri<R: Read>(scanner: &mut Scanner<R>) -> Result<Uri, Error>
                     scanner.read()?;
                 }
                 _ => {
+                    // Move to the char after the backslash, which should be the `u` of a unicode escape
+                    scanner.read()?;
                     let unicode = parse_str_unicode_escape(scanner)?;
                     str.extend_from_slice(unicode.as_bytes());
                 }
